@@ -41,12 +41,31 @@ class StubState:
         self.vc, self.tag = vc, tag
         self._done = None
         self._delay = None
+        self._failed = None
+        self._failures = None
 
     @property
     def done(self):
         if self._done is None:
             self._done = self.vc.bool(f'done[{self.tag}]')
         return self._done
+
+    @property
+    def failed(self):
+        """the handler finished with a failure for good (PermanentError, errors=PERMANENT, retries/timeout exhausted): G3"""
+        if self._failed is None:
+            self._failed = self.vc.bool(f'failed[{self.tag}]')
+            self.vc.assume(Implies(self._failed, self.done), 'G3: failed for good implies finished')
+        return self._failed
+
+    @property
+    def counts(self):
+        if self._failures is None:
+            self._failures = self.vc.int(f'failures[{self.tag}]')
+            self.vc.assume(And(self._failures >= 0, self._failures <= 1, Iff(self._failures > 0, self.failed)),
+                           'G7 State.counts: failure = the number of handlers that failed for good (one handler here)')
+        f = self._failures
+        return Opaque('counts', failure=f, success=If(And(self.done, Not(self.failed)), 1, 0), running=If(self.done, 0, 1))
 
     @property
     def delays(self):
@@ -77,7 +96,8 @@ _COMMON = dict(
     assumes=['timer settings are positive durations where given: interval > 0, idle > 0 (kopf.timer docs); initial_delay is a number or None (callables: the value they return)',
              'memory.idle_reset_time is only ever set to the current loop time by process_spawning_cause (H7): monotone, never in the future'])
 _BASE = ['no_self_overlap', 'first_run_after_initial_delay', 'start_not_before_scheduled_time', 'after_failure_delay',
-         'patch_carried_over', 'state_threaded', 'results_delivered_into_the_patch_sent', 'sleeps_wake_on_stop']
+         'patch_carried_over', 'state_threaded', 'results_delivered_into_the_patch_sent', 'sleeps_wake_on_stop',
+         'permanent_failure_ends_the_timer']
 
 
 def _timer_contract(vc, has_interval, has_idle, sharp_values):
@@ -147,6 +167,7 @@ def _timer_contract(vc, has_interval, has_idle, sharp_values):
         def from_scratch():
             def with_handlers(hs):
                 st = StubState(vc, 'fresh')
+                vc.assume(Not(st.done), 'G1/G3: a state made from scratch for a handler has not finished (neither succeeded nor failed)')
                 vc.emit('fresh_state', hs, st)
                 return st
             return Opaque('blank', with_handlers=with_handlers)
@@ -171,6 +192,9 @@ def _timer_contract(vc, has_interval, has_idle, sharp_values):
             # (HandlerState.from_scratch stamps now) is what the handler's timeout and runtime are counted from (X1); a blank
             # state made once for the whole timer counts the age of the timer TASK instead (seeded C10-11: past `timeout`
             # every later run ends in HandlerTimeoutError before the function is called)
+            # C11: "a permanent error, or an arbitrary error in permanent mode, ends it without retry ... for ... timers"; docs/timers.rst:
+            # "For kopf.PermanentError, the timer stops forever and is not retried": no run ever follows a run that failed for good
+            vc.ensure('permanent_failure_ends_the_timer', Not(And(G.prev_state.done, G.prev_state.failed)))
             fresh_now = [e[2] for e in vc.trace[getattr(G, 'round_mark', 0):] if e and e[0] == 'fresh_state']
             vc.ensure('state_threaded', Implies(G.prev_state.done, any(st is f for f in fresh_now)))
         vc.canary('canary.never_runs', False)
@@ -206,7 +230,10 @@ def _timer_contract(vc, has_interval, has_idle, sharp_values):
     # ---------------------------------------------------------------- loop contracts
     def inv_main(loc):
         ok_time = True if G.next_allowed is None else Or(stop.state, clock.now >= G.next_allowed)
-        return And(ok_time, memory.idle_reset_time <= clock.now, isinstance(loc.get('state'), StubState), not G.running,
+        st_ = loc.get('state')
+        # a round is only ever started from a state that has NOT failed for good: such a run ends the timer (C11, docs/timers.rst)
+        alive = Not(And(st_.done, st_.failed)) if isinstance(st_, StubState) and G.prev_state is not None else True
+        return And(ok_time, memory.idle_reset_time <= clock.now, isinstance(st_, StubState), not G.running, alive,
                    loc.get('patch') is cause.patch)       # the local and the cause share THE accumulated patch
 
     def entry_main(loc):
@@ -294,7 +321,9 @@ def _timer_contract(vc, has_interval, has_idle, sharp_values):
     def exit_main(loc):
         # leaving the main loop: the stop flag is set, or it is the one-shot case after a finished run
         one_shot_done = interval is None and idle is None and G.run_end is not None
-        vc.ensure('one_shot_without_interval_and_idle', Or(stop.state, one_shot_done))
+        st_ = loc.get('state')
+        failed_for_good = And(st_.done, st_.failed) if G.run_end is not None and isinstance(st_, StubState) else False
+        vc.ensure('one_shot_without_interval_and_idle', Or(stop.state, one_shot_done, failed_for_good))
 
     def inv_wait(loc):
         return memory.idle_reset_time <= clock.now
